@@ -169,4 +169,9 @@ of any number of simultaneous searches on an index nobody writes (seeded changes
 the visited marks on the vertices: simultaneous searches then return an id twice). -/
 theorem search_path_writes_nothing_shared : Generated.searchPathWritesNothingShared = true := by decide
 
+
+/-- "the k nearest" are nearest by the dataset's metric, and the metric is the formula at every
+magnitude (regenerated; the exact engine also compares it with a float64 computation) -/
+theorem metric_is_the_formula_at_every_magnitude : Generated.cosineHasNoMagnitudeGuard = true := by decide
+
 end Anndb.C07
